@@ -33,6 +33,9 @@
 #include <Spectra/MatOp/SparseRegularInverse.h>
 #include <Spectra/MatOp/SymShiftInvert.h>
 #include "common.h"
+// history: the second operator object of every pair has already been shifted elsewhere once (a shift that may be singular is
+// allowed to throw); set_shift must describe its own call only, so both objects must then agree
+#define HIST(call) do { try { call; } catch (...) {} } while (0)
 using namespace Spectra;
 typedef Eigen::MatrixXd Mat;
 typedef Eigen::VectorXd Vec;
@@ -101,7 +104,7 @@ static std::string dense_sym(const std::string& cls, const Case& c)
     }
     if (cls == "DenseSymShiftSolve")
     {
-        DenseSymShiftSolve<double, Uplo, Flags> o0(A0), o1(A1); o0.set_shift(c.sigma); o1.set_shift(c.sigma);
+        DenseSymShiftSolve<double, Uplo, Flags> o0(A0), o1(A1); o0.set_shift(c.sigma); HIST(o1.set_shift(c.sigma + 0.625)); o1.set_shift(c.sigma);
         o0.perform_op(c.x.data(), y0.data()); o1.perform_op(c.x.data(), y1.data());
         LMat S = LA - LD(c.sigma) * LMat::Identity(n, n);
         return report(y0, y1, S.fullPivLu().solve(lx));
@@ -139,14 +142,14 @@ static std::string dense_gen(const std::string& cls, const Case& c)
     }
     if (cls == "DenseGenRealShiftSolve")
     {
-        DenseGenRealShiftSolve<double, Flags> o0(A0), o1(big.block(1, 2, n, n)); o0.set_shift(c.sigma); o1.set_shift(c.sigma);
+        DenseGenRealShiftSolve<double, Flags> o0(A0), o1(big.block(1, 2, n, n)); o0.set_shift(c.sigma); HIST(o1.set_shift(c.sigma + 0.625)); o1.set_shift(c.sigma);
         o0.perform_op(c.x.data(), y0.data()); o1.perform_op(c.x.data(), y1.data());
         LMat S = LA - LD(c.sigma) * LMat::Identity(n, n);
         return report(y0, y1, S.fullPivLu().solve(lx));
     }
     if (cls == "DenseGenComplexShiftSolve")
     {
-        DenseGenComplexShiftSolve<double, Flags> o0(A0), o1(big.block(1, 2, n, n)); o0.set_shift(c.sigma, c.sigmai); o1.set_shift(c.sigma, c.sigmai);
+        DenseGenComplexShiftSolve<double, Flags> o0(A0), o1(big.block(1, 2, n, n)); o0.set_shift(c.sigma, c.sigmai); HIST(o1.set_shift(c.sigma + 0.625, c.sigmai + 0.25)); o1.set_shift(c.sigma, c.sigmai);
         o0.perform_op(c.x.data(), y0.data()); o1.perform_op(c.x.data(), y1.data());
         LCMat S = LA.cast<cl>() - cl(c.sigma, c.sigmai) * LCMat::Identity(n, n);
         LCVec z = S.fullPivLu().solve(lx.cast<cl>());
@@ -190,7 +193,7 @@ static std::string sparse_sym(const std::string& cls, const Case& c)
     }
     if (cls == "SparseSymShiftSolve")
     {
-        SparseSymShiftSolve<double, Uplo, Flags, SI> o0(A0), o1(A1); o0.set_shift(c.sigma); o1.set_shift(c.sigma);
+        SparseSymShiftSolve<double, Uplo, Flags, SI> o0(A0), o1(A1); o0.set_shift(c.sigma); HIST(o1.set_shift(c.sigma + 0.625)); o1.set_shift(c.sigma);
         o0.perform_op(c.x.data(), y0.data()); o1.perform_op(c.x.data(), y1.data());
         LMat S = LA - LD(c.sigma) * LMat::Identity(n, n);
         return report(y0, y1, S.fullPivLu().solve(lx));
@@ -234,14 +237,14 @@ static std::string sparse_gen(const std::string& cls, const Case& c)
     }
     if (cls == "SparseGenRealShiftSolve")
     {
-        SparseGenRealShiftSolve<double, Flags, SI> o0(A0), o1(A0); o0.set_shift(c.sigma); o1.set_shift(c.sigma);
+        SparseGenRealShiftSolve<double, Flags, SI> o0(A0), o1(A0); o0.set_shift(c.sigma); HIST(o1.set_shift(c.sigma + 0.625)); o1.set_shift(c.sigma);
         o0.perform_op(c.x.data(), y0.data()); o1.perform_op(c.x.data(), y1.data());
         LMat S = LA - LD(c.sigma) * LMat::Identity(n, n);
         return report(y0, y1, S.fullPivLu().solve(lx));
     }
     if (cls == "SparseGenComplexShiftSolve")
     {
-        SparseGenComplexShiftSolve<double, Flags, SI> o0(A0), o1(A0); o0.set_shift(c.sigma, c.sigmai); o1.set_shift(c.sigma, c.sigmai);
+        SparseGenComplexShiftSolve<double, Flags, SI> o0(A0), o1(A0); o0.set_shift(c.sigma, c.sigmai); HIST(o1.set_shift(c.sigma + 0.625, c.sigmai + 0.25)); o1.set_shift(c.sigma, c.sigmai);
         o0.perform_op(c.x.data(), y0.data()); o1.perform_op(c.x.data(), y1.data());
         LCMat S = LA.cast<cl>() - cl(c.sigma, c.sigmai) * LCMat::Identity(n, n);
         LCVec z = S.fullPivLu().solve(lx.cast<cl>());
@@ -267,7 +270,7 @@ template <typename TA, typename TB, int UA, int UB, int FA, int FB> struct SSI
         typedef std::integral_constant<bool, std::is_same<TA, Eigen::Sparse>::value> ASp; typedef std::integral_constant<bool, std::is_same<TB, Eigen::Sparse>::value> BSp;
         MA A0 = makeA(with_garbage<Mat>(c.A, UA, 0), ASp()), A1 = makeA(with_garbage<Mat>(c.A, UA, 1), ASp());
         MB B0 = makeB(with_garbage<Mat>(c.B, UB, 0), BSp()), B1 = makeB(with_garbage<Mat>(c.B, UB, 1), BSp());
-        SymShiftInvert<double, TA, TB, UA, UB, FA, FB> o0(A0, B0), o1(A1, B1); o0.set_shift(c.sigma); o1.set_shift(c.sigma);
+        SymShiftInvert<double, TA, TB, UA, UB, FA, FB> o0(A0, B0), o1(A1, B1); o0.set_shift(c.sigma); HIST(o1.set_shift(c.sigma + 0.625)); o1.set_shift(c.sigma);
         o0.perform_op(c.x.data(), y0.data()); o1.perform_op(c.x.data(), y1.data());
         LMat S = c.A.cast<LD>() - LD(c.sigma) * c.B.cast<LD>();
         return report(y0, y1, S.fullPivLu().solve(c.x.cast<LD>()));
